@@ -10,4 +10,7 @@ open Strengths.Gen.PyNumeric
 limited number of digits (the model computes its values exactly and its texts through `repr`) -/
 theorem engine_collection_full_precision : fullPrecision inv_engine_collection = true := by decide +kernel
 
+/-- `engine_collection.py` takes no maximum / minimum / absolute value and swallows no exception: nothing it computes is clamped -/
+theorem engine_collection_no_clamping : clamp_engine_collection = [] := by decide +kernel
+
 end Strengths.PyNumeric
